@@ -53,7 +53,7 @@ def tlc_design(shapes: List[Shape], plans: List[List[str]], max_ver: int, store_
 def tlc_generate(shapes: List[Shape], plans: List[List[str]], max_ver: int, store_kind: str,
                  placement: str, layouts: List[str], cfg: str = "DdsEval_gen.cfg",
                  timeout: int = 900, name: str = "gen", stages: List[int] = [5],
-                 fail_classes: List[str] = []) -> Tuple[common.TLCResult, List[Dict[str, Any]]]:
+                 fail_classes: List[str] = [], log_ops: bool = False) -> Tuple[common.TLCResult, List[Dict[str, Any]]]:
     """Histories of the bounded model, one per complete plan, with expected observables.
     Shapes are distributed over several single-worker TLC processes."""
     n = max(1, min(common.NCPU // 2, len(shapes)))
@@ -62,7 +62,7 @@ def tlc_generate(shapes: List[Shape], plans: List[List[str]], max_ver: int, stor
         groups[i % n].append(i + 1)
     with multiprocessing.get_context("fork").Pool(n) as pool:
         parts = pool.map(_gen_one, [(shapes, plans, max_ver, store_kind, placement, layouts, cfg,
-                                     timeout, "%s%d" % (name, k), ids, stages, fail_classes)
+                                     timeout, "%s%d" % (name, k), ids, stages, fail_classes, log_ops)
                                     for (k, ids) in enumerate(groups)])
     hists: List[Dict[str, Any]] = []
     first = None
@@ -74,11 +74,11 @@ def tlc_generate(shapes: List[Shape], plans: List[List[str]], max_ver: int, stor
 
 
 def _gen_one(a) -> Tuple[common.TLCResult, List[Dict[str, Any]]]:
-    (shapes, plans, max_ver, store_kind, placement, layouts, cfg, timeout, name, ids, stages, fail_classes) = a
+    (shapes, plans, max_ver, store_kind, placement, layouts, cfg, timeout, name, ids, stages, fail_classes, log_ops) = a
     d = common.stage_spec({
         "ShapeData.tla": shp.shape_data_module(shapes),
         "RunConf.tla": runconf.runconf(max_ver, store_kind, placement, plans, True, ids, layouts,
-                                       stages, fail_classes)}, name)
+                                       stages, fail_classes, log_ops)}, name)
     r = common.run_tlc(d, "DdsEval.tla", cfg, workers=1, timeout=timeout, heap="2g")
     common.tlc_must_pass(r, "DdsEval generation (%s)" % cfg)
     hs = r.printed("HIST")
